@@ -201,6 +201,13 @@ pub fn projset(p: PsParams) -> impl Strategy<Value = ProjSet> {
                             }
                             _ => (i, names[i].clone()),
                         };
+                        // references mostly point "backwards" in the (project, target) order so
+                        // that valid (acyclic) sets are common; the rest may close cycles
+                        let (dest, project) = if dest > i && flags % 16 != 3 {
+                            (i, if pj % 2 == 0 { None } else { names[i].clone() })
+                        } else {
+                            (dest, project)
+                        };
                         // mostly an existing target of the destination; going *forward* in the
                         // (project, target) order mostly, so that cycles stay the exception
                         let existing = &tnames[dest];
@@ -209,6 +216,10 @@ pub fn projset(p: PsParams) -> impl Strategy<Value = ProjSet> {
                         } else if flags % 8 == 7 {
                             TARGET_NAMES[(*sel as usize) % TARGET_NAMES.len()].to_string()
                         } else {
+                            if dest == i && ti == 0 && flags % 16 != 3 {
+                                // the first target of a project has nothing "before" it
+                                continue;
+                            }
                             let k = if dest == i && ti > 0 && flags % 16 != 3 {
                                 (*sel as usize) % ti
                             } else {
